@@ -40,6 +40,9 @@ pub struct WorldCfg {
     pub exotic: bool,
     /// a blocks source other than the default (management canister)
     pub custom_source: bool,
+    /// block timestamps are not monotone: every block at a height divisible by 3 is dated one
+    /// second before its parent (still later than the median of its 11 predecessors)
+    pub time_dips: bool,
 }
 
 impl WorldCfg {
@@ -54,6 +57,7 @@ impl WorldCfg {
             syncing: true,
             exotic: false,
             custom_source: false,
+            time_dips: false,
         }
     }
     pub fn on(net: Network, threshold: u32) -> Self {
